@@ -450,6 +450,9 @@ void EGLPNUM_TYPENAME_ILLprice_init_mpartial_price (
 
 	p = (pricetype == COL_PRICING) ? &(pinf->pmpinfo) : &(pinf->dmpinfo);
 	p->bsize = 0;
+	/* nothing to price (a problem without structural columns): no group */
+	if (p->ngroups <= 0)
+		return;
 	i = p->cgroup;
 	do
 	{
@@ -525,13 +528,16 @@ void EGLPNUM_TYPENAME_ILLprice_update_mpartial_price (
 	p->bsize = 0;
 #endif
 
-	i = p->cgroup;
-	do
+	if (p->ngroups > 0)
 	{
-		EGLPNUM_TYPENAME_ILLprice_mpartial_group (lp, p, phase, i, pricetype);
-		i = (i + 1) % p->ngroups;
-	} while (i != p->cgroup && p->bsize <= p->k);
-	p->cgroup = i;
+		i = p->cgroup;
+		do
+		{
+			EGLPNUM_TYPENAME_ILLprice_mpartial_group (lp, p, phase, i, pricetype);
+			i = (i + 1) % p->ngroups;
+		} while (i != p->cgroup && p->bsize <= p->k);
+		p->cgroup = i;
+	}
 
 #ifdef MULTIP
 	for (i = 0; i < csize; i++)
